@@ -79,3 +79,11 @@ Definition chk_align_entry (Ms : list (spm Q)) (impl : list (spm Q) + err) : boo
   | inr e, inr e' => err_eqb e e'
   | _, _ => false
   end.
+
+(* the matrices femio returned are a fixed point of the model (C17_align_nnz_entry_idempotent
+   evaluated on the implementation's own outputs) *)
+Definition chk_align_idem (outs : list (spm Q)) : bool :=
+  match align_nnz_entry QOps outs with
+  | inl As => all2 spm_eq As outs
+  | inr _ => false
+  end.
